@@ -81,8 +81,8 @@ def deferred_orders(rng, sc, ev, flags="b"):
             ms.append(RG.G("link", nm, target=rng.choice([b"/abs/t", b"../up", b"a/../../b"]), level=rng.choice([1, 2])))
         ms.append(RG.G("file", b"last.txt", data=b"last"))
         pol = ["eod", "eof", "plain"][oi % 3]
-        a, g = RG.write_case(sc, "dord%d" % oi, ms, pol)
-        xd = os.path.join(sc, "xdord%d" % oi)
+        a, g = RG.write_case(sc, "dord%s%d" % (flags, oi), ms, pol)
+        xd = os.path.join(sc, "xdord%s%d" % (flags, oi))
         os.makedirs(xd)
         # (one of the links is skipped in some histories: what is not extracted is not re-presented)
         ops = []
@@ -100,9 +100,9 @@ def deferred_orders(rng, sc, ev, flags="b"):
     ]
     for si, ms in enumerate(shapes):
         for pol in ("eod", "eof", "plain"):
-            a, g = RG.write_case(sc, "dpend%d%s" % (si, pol), ms, pol)
+            a, g = RG.write_case(sc, "dpend%s%d%s" % (flags, si, pol), ms, pol)
             for skip in (None, 0, 1):
-                xd = os.path.join(sc, "xdpend%d%s%s" % (si, pol, skip))
+                xd = os.path.join(sc, "xdpend%s%d%s%s" % (flags, si, pol, skip))
                 os.makedirs(xd)
                 ops = []
                 for i in range(len(ms)):
@@ -111,8 +111,8 @@ def deferred_orders(rng, sc, ev, flags="b"):
                 jobs.append("exec %s %s %s %s %s 0 %s %s" % (g, a, ["path", "cb"][si % 2], pol, xd, flags, ",".join(ops)))
         ev.cls(("pending-both", si))
     for pi, (ms, pol, ops) in enumerate(RG.policy_switch_cases()):
-        a, g = RG.write_case(sc, "psw%d" % pi, ms, pol)
-        xd = os.path.join(sc, "xpsw%d" % pi)
+        a, g = RG.write_case(sc, "psw%s%d" % (flags, pi), ms, pol)
+        xd = os.path.join(sc, "xpsw%s%d" % (flags, pi))
         os.makedirs(xd)
         jobs.append("exec %s %s %s %s %s 0 %s %s" % (g, a, ["path", "cb"][pi % 2], pol, xd, flags, ",".join(ops)))
     ev.cls(("policy-switch", len(jobs)))
@@ -166,7 +166,7 @@ def run(tier, seed, ev):
         mc = ex.submit(V.tlc_must_pass, "MC_Reader", "MC_Reader_c15" if tier == "quick" else "MC_Reader_c15_t",
                        workers=8, xmx="12g", timeout=2400 if tier == "quick" else 9000)
         drv = V.build_driver("reader_drv", "san", wrap=True)
-        jobs = gen_jobs(rng, sc, 150 if tier == "quick" else 2500, ev) + tlc_scripts(seed, tier, sc, ev) + deferred_orders(rng, sc, ev) + nested_dir_walks(rng, sc, ev)
+        jobs = gen_jobs(rng, sc, 150 if tier == "quick" else 2500, ev) + tlc_scripts(seed, tier, sc, ev) + deferred_orders(rng, sc, ev) + deferred_orders(rng, sc, ev, flags="bL") + nested_dir_walks(rng, sc, ev)
         res = TR.run_sharded(drv, jobs, sc, "gen")
         viols, good = TR.validate_all("Trace_Reader", "Trace_Reader", res, ev, "C15")
         # two readers over two archives: interleaved call by call, and on two threads; each reader's
